@@ -16,7 +16,7 @@ RULE = ("Hypothesis-generated rulesets with a generated OMEN model and 1-3 Marko
         "pre-terminal probabilities are distinct, the concatenation of the runs must equal the uninterrupted stream exactly, "
         "each cut lying at a pre-terminal boundary or between two Markov guesses; with ties only guesses of pre-terminals tied "
         "with a saved position may repeat. Non-trivial = a quit strictly inside a Markov level (1 <= j < |level|); distinct = "
-        "hash of (model, quit positions).")
+        "hash of (model, quit positions). Scale part long_level: one Markov level of 326 592 strings, quit early inside it, resume (the level passes 2^18 guesses in one process and ends), quit in the next pre-terminal, resume.")
 ASSUMPTIONS = ["quit = explicit 'q'", "the OMEN model is small enough for the level to be enumerated completely by the real generator"]
 
 _ROOT = None
@@ -74,6 +74,29 @@ def prop_every(case, rec):
         for j2 in case.get('second', []):
             sub2 = dict(case, js=[j], second=[j2])
             run_history(sub2, rec, m, [j, j2], root, u)
+
+
+# ---------------------------------------------------------------- scale: a Markov level of several hundred thousand guesses
+def long_level_model():
+    letters = list('abcdef')
+    return {'encoding': 'utf-8', 'uuid': 'c15-long', 'vars': {'D1': [[0.5, ['1']], [0.3, ['2']], [0.2, ['3']]]},
+            'base': [['M', 0.5], ['D1', 0.5]],
+            'omen': {'ngram': 2, 'alphabet': letters, 'ip': [[0, c] for c in letters], 'ep': [[0, c] for c in letters],
+                     'cp': [[0, a + b] for a in letters for b in letters], 'ln': [10] * 5 + [1, 1] + [10] * 14},
+            'm_levels': [[1, 0.9]], 'keyspace': [[1, 6 ** 6 + 6 ** 7]]}
+
+
+def run_long_level(rec, seed, shard, nshards, tier):
+    """One Markov level of 326 592 strings (6^6 + 6^7): quit early inside it, resume (the level then runs past 2^18 guesses in one
+    process and finishes), quit again in a later pre-terminal, resume: the finished level may not come back."""
+    m = long_level_model()
+    case = {'model': m, 'max_total': 10 ** 6}
+    root, u = prep(case, rec)
+    if u is None:
+        raise core.HarnessError('long_level model produced no Markov level')
+    level = next(e - s for s, e, mk, _ in segments(u) if mk)
+    for first in ([1000] if tier == 'quick' else [1000, 270000]):
+        run_history(dict(case, js=[first]), rec, m, [first, level - first + 1], root, u, label_cls=['markov_level_of_%d_guesses' % level])
 
 
 @st.composite
@@ -154,6 +177,7 @@ def run_processes(rec, seed, shard, nshards, tier):
 
 
 PARTS = [
+    Part('long_level', run_long_level, prop_every, {'quick': 1, 'thorough': 1}),
     Part('regression_f15', run_regress, prop_hist, {'quick': 1, 'thorough': 1}),
     Part('every_position', run_every, prop_every, {'quick': 8, 'thorough': 16}),
     Part('histories', run_hist, prop_hist, {'quick': 6, 'thorough': 16}),
